@@ -74,6 +74,26 @@ type Resp struct {
 	Result json.RawMessage `json:"result,omitempty"`
 	N      uint64          `json:"n,omitempty"`
 	Gates  []GateEvent     `json:"gates,omitempty"`
+	// Panic: the server's "Panic detected on request" report found inside a body whose status is
+	// below 500 (the handler had started its answer before it panicked)
+	Panic string `json:"panic,omitempty"`
+}
+
+// panicInBody returns the server's panic report when it was appended to an answer that had
+// already been started (the recovery middleware cannot change the status any more).
+func panicInBody(code int, body []byte) string {
+	if code >= 500 {
+		return ""
+	}
+	i := bytes.Index(body, []byte("Panic detected on request"))
+	if i < 0 {
+		return ""
+	}
+	e := i + 400
+	if e > len(body) {
+		e = len(body)
+	}
+	return string(body[i:e])
 }
 
 func fatal(format string, args ...interface{}) {
@@ -217,7 +237,8 @@ func doHTTP(rq Req) Resp {
 		}()
 		server.ServeSingleHTTP(w, hr)
 	}()
-	return Resp{ID: rq.ID, Status: w.Code, Body: base64.StdEncoding.EncodeToString(w.Body.Bytes()), CType: w.Header().Get("Content-Type")}
+	return Resp{ID: rq.ID, Status: w.Code, Body: base64.StdEncoding.EncodeToString(w.Body.Bytes()), CType: w.Header().Get("Content-Type"),
+		Panic: panicInBody(w.Code, w.Body.Bytes())}
 }
 
 func doPar(rq Req) Resp {
